@@ -161,20 +161,25 @@ func classify(parent string, ents []tarEnt, named string) string {
 		os.RemoveAll(sb.root)
 		if strings.HasPrefix(res, "OUTSIDE") || strings.Contains(res, " OUTSIDE") {
 			last := ents[k-1]
-			through := ""
+			through, how := "", "through"
 			for _, e := range ents[:k-1] {
-				if e.name == last.name || strings.HasPrefix(last.name, e.name+"/") {
+				same := filepath.Clean(e.name) == filepath.Clean(last.name)
+				under := strings.HasPrefix(filepath.Clean(last.name), filepath.Clean(e.name)+"/")
+				if same || under {
 					switch e.typ {
 					case 's':
 						through = "symlink"
 					case 'h':
 						through = "hardlink"
 					}
+					if through != "" && under {
+						how = "under"
+					}
 				}
 			}
 			kind := map[byte]string{'r': "reg", 'd': "dir", 's': "sym", 'h': "hard"}[last.typ]
 			if through != "" {
-				return kind + "-through-archive-" + through
+				return kind + "-" + how + "-archive-" + through
 			}
 			return kind + "-direct"
 		}
@@ -234,7 +239,7 @@ func runC11(seed int64, tier string, sc *Script) map[string]any {
 	abs := func(rel string) string { return filepath.Join(probe.root, rel) } // same layout in every sandbox modulo the sbN segment
 	_ = abs
 	names := []string{"d/a", "d/s/l1", "d/s/l2", "d/s/l2/x", "d/../x", "d/s", "d/a/../../../x", "d/./b//c"}
-	targets := []string{"..", "a", "l1/../../victim", "../../../victim", "cfile", "../../../../outside/victim", "l1/../..", "ABS-OUTSIDE"}
+	targets := []string{"..", "l1/../..", "l1/../../victim", "../../../victim", "cfile", "../../../../outside/victim", "a", "ABS-OUTSIDE"}
 	if tier != "thorough" {
 		names = names[:6]
 		targets = targets[:6]
@@ -249,6 +254,8 @@ func runC11(seed int64, tier string, sc *Script) map[string]any {
 	evals, idx := 0, 1
 	_ = idx
 	runOne := func(label string, ents []tarEnt, named string) {
+		sc.Case("archive-" + label)
+		sc.NonTrivial()
 		sb := newSandbox(tmp, idx)
 		idx++
 		// absolute targets are per-sandbox
@@ -323,19 +330,16 @@ func runC11(seed int64, tier string, sc *Script) map[string]any {
 		st.Close()
 	}
 	// corpus first: the two witnesses of F3a / F3b
-	sc.Case("corpus")
-	sc.NonTrivial()
 	runOne("F3a", []tarEnt{{'d', "d/s", ""}, {'s', "d/s/l1", ".."}, {'s', "d/s/l2", "l1/../../victim"}, {'r', "d/s/l2", ""}}, "")
 	runOne("F3b", []tarEnt{{'h', "d/a", "cfile"}, {'r', "d/a", ""}}, "")
+	// a directory reached through a chain of symlinks: the ancestor check must reject the file beneath it
+	runOne("dir-chain", []tarEnt{{'d', "d/s", ""}, {'s', "d/s/l1", ".."}, {'s', "d/s/l2", "l1/../.."}, {'r', "d/s/l2/x", ""}}, "")
+	runOne("dir-chain-named", []tarEnt{{'d', "d/s", ""}, {'s', "d/s/l1", ".."}, {'s', "d/s/l2", "l1/../.."}}, "d/s/l2/x")
 	// named blobs with hostile titles
-	sc.Case("named-titles")
-	sc.NonTrivial()
 	for _, n := range []string{"a", "a/b", "../x", "a/../../x", "a/../b", "./a", "a//b", "ABS:outside/newfile", "ABS:p1/p2/wd/inside", "..", ".", "a/..", "../wd/x", "../../p2/victim"} {
 		runOne("named", nil, n)
 	}
 	// exhaustive: all archives of up to two entries
-	sc.Case("exhaustive-2")
-	sc.NonTrivial()
 	for _, a := range kinds {
 		runOne("1", []tarEnt{{'d', "d/s", ""}, a}, "")
 	}
@@ -355,8 +359,6 @@ func runC11(seed int64, tier string, sc *Script) map[string]any {
 		}
 	}
 	// random longer archives, with a named blob pushed afterwards through what was extracted
-	sc.Case("random")
-	sc.NonTrivial()
 	nr := 300
 	if tier == "thorough" {
 		nr = 20000
